@@ -18,7 +18,6 @@ from .packet import (
 
 PACKET_LENGTH_SEND_SIZE = 2
 PACKET_NUMBER_SEND_SIZE = 2
-PADDED_DATAGRAM_SIZE = 1200
 
 
 QuicDeliveryHandler = Callable[..., None]
@@ -102,6 +101,14 @@ class QuicPacketBuilder:
         self._flight_capacity = max_datagram_size
 
     @property
+    def flight_capacity(self) -> int:
+        """
+        Returns the size the current datagram can grow to, given the
+        anti-amplification and congestion control limits.
+        """
+        return self._flight_capacity
+
+    @property
     def packet_is_empty(self) -> bool:
         """
         Returns `True` if the current packet is empty.
@@ -168,17 +175,6 @@ class QuicPacketBuilder:
         if self.remaining_buffer_space < capacity or (
             frame_type not in NON_IN_FLIGHT_FRAME_TYPES
             and self.remaining_flight_space < capacity
-        ):
-            raise QuicPacketBuilderStop
-
-        # A datagram carrying an INITIAL packet from a client, or an ack-eliciting
-        # INITIAL packet from a server, must be padded to at least 1200 bytes (RFC 9000
-        # section 14.1). If the anti-amplification or congestion limits do not leave
-        # room for that, the packet cannot be sent now.
-        if (
-            self._packet_type == QuicPacketType.INITIAL
-            and (self._is_client or frame_type not in NON_ACK_ELICITING_FRAME_TYPES)
-            and self._flight_capacity < PADDED_DATAGRAM_SIZE
         ):
             raise QuicPacketBuilderStop
 
